@@ -271,11 +271,19 @@ def run_check(pid, tier, seed=0, workers=None, only_job=None):
             per_job[job_idx]["outstanding"] = per_job[job_idx].get("outstanding", 0) + 1
             task = (pid, job_idx, jobs[job_idx], prefixes, budget, known_ids, profile)
             results.append(pool.apply_async(worker_task, (task,)))
+        # jobs carrying "hunt_cpu_s" are bug-hunting jobs: explored (after the exhaustive jobs are done) until their
+        # cpu budget is used up; whatever is left of their frontier is dropped and they are not part of the verdict
+        deferred = [j for j in order if jobs[j].get("hunt_cpu_s")]
         for j in order:
-            submit(j, [[]], 1.5, True)
+            if j not in deferred:
+                submit(j, [[]], 1.5, True)
         capped = False
         stop_on_violation = False
-        while results:
+        while results or deferred:
+            if not results:
+                for j in deferred:
+                    submit(j, [[]], 1.5, True)
+                deferred = []
             if time.perf_counter() - t_start > cap_s:
                 capped = True
                 break
@@ -307,6 +315,9 @@ def run_check(pid, tier, seed=0, workers=None, only_job=None):
                 if pj["n_findings"] >= 5:
                     # enough counterexamples for this job: do not explore its remaining subtrees
                     pj["truncated_after_violation"] = True
+                    left = []
+                if left and jobs[j].get("hunt_cpu_s") and pj["wall"] >= jobs[j]["hunt_cpu_s"]:
+                    pj["hunt_stopped"] = True
                     left = []
                 if left:
                     n_chunks = min(len(left), max(1, 2 * workers))
@@ -364,7 +375,7 @@ def run_check(pid, tier, seed=0, workers=None, only_job=None):
     if tier == "thorough" and not violations and not os.environ.get("VERIF_NO_SOLVER_DIFF"):
         n_diff, bad_diff, diff_solvers = solver_diff([q for pj in per_job for q in pj.get("smt", [])][:60])
     vacuous = [jobs[j].get("name") for j, pj in enumerate(per_job)
-               if pj["stats"].asserts_reached == 0 and not any(jobs[j].get("name") == e[0] for e in errors)]
+               if pj["stats"].asserts_reached == 0 and not jobs[j].get("hunt_cpu_s") and not any(jobs[j].get("name") == e[0] for e in errors)]
     complete = not capped and not errors
     status = 0
     msgs = []
@@ -413,7 +424,8 @@ def run_check(pid, tier, seed=0, workers=None, only_job=None):
             st = pj["stats"]
             print("  job %-40s paths=%-8d cut=%-8d refuted=%-4d exc=%-3d cpu=%.0fs %s"
                   % (jobs[j].get("name"), st.paths, st.cut_paths, st.refuted, st.exceptions, pj["wall"],
-                     "" if not capped else "(frontier not emptied)" if pj.get("outstanding") else "(exhausted)"))
+                     ("(hunt: stopped at budget)" if pj.get("hunt_stopped") else "(hunt: exhausted)" if jobs[j].get("hunt_cpu_s")
+                      else "") if not capped else "(frontier not emptied)" if pj.get("outstanding") else "(exhausted)"))
     for line in known_lines:
         print(line)
     for m in msgs:
@@ -451,13 +463,23 @@ def build_evidence(pid, tier, seed, h, jobs, per_job, total, wall, complete, vio
             "solver and forks, discrete nondeterminism is a bounded choice explored exhaustively). Each path ends "
             "with one non-forking query `path condition AND NOT property`; unsat on every path of every job with an "
             "empty frontier is the verdict 'holds within the bounds'. The code executed is %s's current working "
-            "tree (imported fresh in this run). %s" % (_z3v(), REPO, getattr(h, "EXPLANATION", ""))),
+            "tree (imported fresh in this run). %s%s" % (_z3v(), REPO, getattr(h, "EXPLANATION", ""),
+                                                           " Jobs listed under bug_hunting_jobs are deeper instances explored only up to a "
+                                                           "cpu budget: a counterexample found there is reported like any other, but when "
+                                                           "their frontier is not emptied they add nothing to the claim ('exhaustive' refers "
+                                                           "to the other jobs)." if any(j.get("hunt_cpu_s") for j in jobs) else "")),
         "engine": "Engine S (own path-exhaustive symbolic executor on z3)",
         "functions_encoded": sorted(funcs)[:400],
         "bounds": getattr(h, "BOUNDS", {}).get(tier, getattr(h, "BOUNDS", "")),
         "outside_bounds": getattr(h, "OUTSIDE", ""),
         "jobs": [{"name": jobs[j].get("name"), **pj["stats"].as_dict(), "tasks": pj["tasks"],
-                  "cpu_s": round(pj["wall"], 2)} for j, pj in enumerate(per_job)],
+                  "cpu_s": round(pj["wall"], 2),
+                  "mode": ("exhaustive" if not jobs[j].get("hunt_cpu_s") else
+                           "bug hunting only (budget %s cpu-s): %s" % (
+                               jobs[j]["hunt_cpu_s"], "stopped with part of the frontier unexplored -- no claim"
+                               if pj.get("hunt_stopped") else "frontier emptied within the budget"))}
+                 for j, pj in enumerate(per_job)],
+        "bug_hunting_jobs": [jobs[j].get("name") for j in range(len(jobs)) if jobs[j].get("hunt_cpu_s")],
         "evaluations": total.paths,
         "distinct_nontrivial": total.nontrivial,
         "rule": ("one evaluation = one execution path of the harness, identified by its decision prefix (distinct prefix => "
